@@ -382,6 +382,60 @@ def gen_sweep(rng, tier):
     return a, more
 
 
+TINY_K = [8, 10, 20, 27, 30, 40, 52]
+
+
+def gen_tiny(rng):
+    """transition probabilities 2^-k and 1 - 2^-k, k in {8,10,20,27,30,40,52}: almost absorbing self-loops, almost
+    unreachable exits, almost disconnected recurrent classes, multi-state classes with a tiny leak; mostly undiscounted"""
+    e = F(1, 2 ** rng.choice(TINY_K))
+    e2 = e if rng.random() < .6 else F(1, 2 ** rng.choice(TINY_K))
+    h = F(1, 2)
+    shape = rng.choice(["leak-selfloop", "two-selfloops", "asym", "exit-terminal", "tiny-exit", "cycle-leak",
+                        "pair-leak", "cycle-leak-terminal", "chain-selfloops", "choice", "cycle-leak", "pair-leak"])
+    term = set()
+    if shape == "leak-selfloop":
+        rows = {(0, 0): {0: 1 - e, 1: e}, (1, 0): {1: F(1)}}
+    elif shape == "two-selfloops":
+        rows = {(0, 0): {0: 1 - e, 1: e}, (1, 0): {1: 1 - e2, 0: e2}}
+    elif shape == "asym":
+        rows = {(0, 0): {0: 1 - e, 1: e}, (1, 0): {1: h, 0: h}}
+    elif shape == "exit-terminal":
+        rows = {(0, 0): {0: 1 - e, 1: e}, (1, 0): {1: F(1)}}
+        term = {1}
+    elif shape == "tiny-exit":
+        rows = {(0, 0): {1: 1 - e, 2: e}, (1, 0): {1: F(1)}, (2, 0): {2: F(1)}}
+    elif shape in ("cycle-leak", "cycle-leak-terminal"):
+        rows = {(0, 0): {1: F(1)}, (1, 0): {0: 1 - e, 2: e}, (2, 0): {2: F(1)}}
+        term = {2} if shape == "cycle-leak-terminal" else set()
+    elif shape == "pair-leak":
+        rows = {(0, 0): {0: h, 1: h}, (1, 0): {0: h - e, 1: h, 2: e}, (2, 0): {2: F(1)}}
+    elif shape == "chain-selfloops":
+        rows = {(0, 0): {0: 1 - e, 1: e}, (1, 0): {1: 1 - e2, 2: e2}, (2, 0): {2: F(1)}}
+    else:
+        rows = {(0, 0): {0: 1 - e, 2: e}, (0, 1): {1: F(1)}, (1, 0): {1: F(1)}, (2, 0): {2: F(1)}}
+    n = 1 + max(s for s, _ in rows)
+    nA = 1 + max(a for _, a in rows)
+    perm = list(range(n))
+    rng.shuffle(perm)                      # which state is the lowest index (reference state) varies
+    start = perm[0]
+    vals = rng.sample([F(x) for x in range(-4, 6) if x != 0], n)
+    actions = [[] for _ in range(n)]
+    trans, reward = {}, {}
+    for (s, a), row in sorted(rows.items()):
+        ps, r = perm[s], vals[s] + (a if a else 0)
+        actions[ps].append(a)
+        trans["%d,%d" % (ps, a)] = [[perm[ns], str(p)] for ns, p in row.items()]
+        if s not in term:
+            for ns in row:
+                reward["%d,%d,%d" % (ps, a, perm[ns])] = str(r)
+    absorbing = [False] * n
+    for s in term:
+        absorbing[perm[s]] = True
+    return {"n": n, "nA": nA, "actions": actions, "trans": trans, "reward": reward, "absorbing": absorbing,
+            "init": [[start, "1"]], "gamma": "1" if rng.random() < .8 else "9/10"}
+
+
 # 1 - 2^-10, 1 - 2^-14, 1 - 2^-17, 1 - 10^-6 (exact rationals to the model, nearest doubles to msdm)
 NEAR_ONE = ["1023/1024", "16383/16384", "131071/131072", "999999/1000000"]
 
@@ -418,9 +472,12 @@ def gen_case(rng, tier):
     elif r < .80:
         kind = "undisc-farms"                 # gain-class choice with exact / near bias ties
         m = gen_farms(rng)
-    elif r < .88:
+    elif r < .87:
         kind = "undisc-large-costs"           # costs ~ -1000 .. -100, state-dependent action sets, no terminal state
         m = gen_large_costs(rng)
+    elif r < .93:
+        kind = "tiny-probabilities"           # probabilities 2^-k / 1-2^-k, k in {8,10,20,27,30,40,52}
+        m = gen_tiny(rng)
     else:
         kind = "undisc-sweep"                 # one planner object: A, perturbed B, (C,) A again
         m, more = gen_sweep(rng, tier)
@@ -517,6 +574,11 @@ def find_M(Pa, Ra, av, g, h, d):
 
 
 def exact_optimal_gain(Pa, Ra, av):
+    r = exact_optimal(Pa, Ra, av)
+    return None if r is None else r[0]
+
+
+def exact_optimal(Pa, Ra, av):
     """exact multichain policy iteration on Fractions (bias improvement restricted to gain-tight
     actions), self-certified: returns g only if (g, h + M g) is exactly dual feasible and the final
     policy is exactly tight -- which by C16_dual_certificate_upper/_tight_policy_lower makes g THE optimal gain"""
@@ -543,8 +605,9 @@ def exact_optimal_gain(Pa, Ra, av):
                 changed = True
         if not changed:
             ok1 = all(ex(Pa, g, s, a) <= g[s] for s in range(n) for a in range(nA) if av[s][a])
-            if ok1 and find_M(Pa, Ra, av, g, h, F(0)) is not None:
-                return g
+            M = find_M(Pa, Ra, av, g, h, F(0)) if ok1 else None
+            if M is not None:
+                return g, h, M
             return None
     return None
 
@@ -602,11 +665,28 @@ def prepare(case, res):
         gq, hq = eval_policy(Pa, Ra, upol)
     if gq is None:
         gq, hq = [F(0)] * n, [F(0)] * n     # no exact evaluation available: the checker decides
-    dup = gt = 2 * band
+    dup = 2 * band
+    # the reported gain is judged relative to the GAIN scale (per-step rewards), not the bias scale: a bias of
+    # magnitude 2^k (almost closed classes) must not widen the tolerance on the gain
+    gscale = max([F(1)] + [abs(x) for x in g] + [abs(x) for x in gq])
+    gband = F(1, 10**8) + F(1, 10**5) * gscale
+    d["gscale"], d["gband"] = gscale, gband
+    gt = min(2 * band, 2 * gband)
     dlo = F(0)                               # the evaluation equations of (g', h') hold exactly
     M = find_M(Pa, Ra, av, gq, h, dup)
+    wbase, d["dual_from"] = h, "reported bias"
+    if M is None:
+        # the reported bias cannot be completed to a dual vector (the bias is not part of the property at
+        # gamma = 1): fall back to the exact bias of the returned policy, then to the exact optimal pair
+        M2 = find_M(Pa, Ra, av, gq, hq, dup)
+        if M2 is not None:
+            M, wbase, d["dual_from"] = M2, hq, "exact bias of the returned policy"
+        else:
+            opt = exact_optimal(Pa, Ra, av)
+            if opt is not None and list(opt[0]) == list(gq):
+                M, wbase, d["dual_from"] = opt[2], opt[1], "exact optimal gain/bias pair"
     d["M"] = M
-    w = [h[s] + (M if M is not None else 0) * gq[s] for s in range(n)]
+    w = [wbase[s] + (M if M is not None else 0) * gq[s] for s in range(n)]
     d["gq"], d["w"], d["hq"] = gq, w, hq
     tol = [dup, dlo, gt, F(1, 10**12), tiny, 2 * band]
     d["tols"] = tol
@@ -617,6 +697,27 @@ def prepare(case, res):
 # ----------------------------------------------------------------------------
 # violation search (only when a checker rejects): independent exact / LP oracles
 # ----------------------------------------------------------------------------
+TINY_RULE = ("signature class: UNDISCOUNTED MDP in which some available action of a non-absorbing state has a positive "
+             "transition probability <= 2^-10; every other gain mismatch / raise keeps its ordinary signature")
+
+
+def tiny_probability(P, av, absorbing):
+    """smallest positive transition probability over available actions of non-absorbing states if it is <= 2^-10, else None"""
+    ps = [P[s][a][k] for s in range(len(P)) if not absorbing[s] for a in range(len(P[0])) if av[s][a]
+          for k in range(len(P)) if P[s][a][k] > 0]
+    if ps and min(ps) <= F(1, 2**10):
+        return min(ps)
+    return None
+
+
+def tiny_class_case(mdpcase, state_list):
+    if F(mdpcase["gamma"]) != 1:
+        return None
+    al = sorted({a for acts in mdpcase["actions"] for a in acts})
+    P, R, av, absf, ini = gen_mdp.arrays(mdpcase, state_list, al)
+    absorbing, _ = _c01.model_masks(P, R, av, absf, F(1))
+    return tiny_probability(P, av, absorbing)
+
 NEAR_ONE_RULE = ("signature class: discounted MDP with 1 - gamma <= 2^-10 that has a CONTINUING part (some state of the state list "
                  "from which no absorbing state is reachable with positive probability); every other value mismatch / raise keeps "
                  "its ordinary signature")
@@ -700,11 +801,23 @@ def search_failing(case, res, d):
         if lp.get("status") != 0:
             return None
         gstar, src = [fr(x) for x in lp["g"]], "multichain LP (scipy linprog)"
-    bound = 4 * d["band"] + slack
+    bound = min(4 * d["band"] + slack, 4 * d["gband"] + F(1, 10**6) * d["gscale"])
+    if src.startswith("exact"):
+        bound = d["tols"][2]      # exact optimum: the very tolerance the gain_close clause is judged at
     for s in range(n):
         if abs(g[s] - gstar[s]) > bound:
-            return {"clause": "state gain differs from the optimal long-run average reward", "oracle": src,
-                    "state_index": s, "reported": str(float(g[s])), "optimal": str(gstar[s])}
+            why = {"clause": "state gain differs from the optimal long-run average reward", "oracle": src,
+                   "state_index": s, "reported": str(float(g[s])), "optimal": str(gstar[s]),
+                   "reported_gain": [str(float(x)) for x in g], "optimal_gain": [str(x) for x in gstar]}
+            tp = tiny_probability(d["P"], av, d["absorbing"])
+            if tp is not None:
+                # almost closed classes: (i) scipy's dense-graph convention drops edges <= 1e-8 in the Floyd-Warshall
+                # reachability, so recurrent-class detection disagrees with the equation system that keeps them;
+                # (ii) rows of (P - I) scaled by eps make the Gram (normal-equations) system ~ eps^-4 conditioned
+                why["signature"] = "C16:undiscounted:tiny-probabilities:gain-not-optimal"
+                why["class_rule"] = TINY_RULE
+                why["smallest_positive_probability"] = str(tp)
+            return why
     # every deterministic selection inside the support must attain the optimal gain: check the
     # uniform policy and the first-action selection exactly
     for name, pol in (("uniform on support", d.get("supp")),):
@@ -737,7 +850,8 @@ def run(ctx):
              "not_converged_by_kind": {}, "lp_agrees": 0, "lp_compared": 0,
              "undisc_support_tight_for_reported_bias": 0, "absorbing_vec_differs_from_model": 0,
              "undisc_bias_tie_with_lower_gain_action": 0, "planner_reuse_steps": 0,
-             "undisc_gain_below_minus_708": 0, "state_dependent_action_sets": 0}
+             "undisc_gain_below_minus_708": 0, "state_dependent_action_sets": 0,
+             "undisc_dual_vector_not_from_reported_bias": 0}
     # one judged item per planning step: (case index, step index, the case with "mdp" := that step's MDP, step result)
     items = []
     for i, (case, res) in enumerate(zip(cases, impl)):
@@ -765,7 +879,10 @@ def run(ctx):
             absorbing_decl = [bool(pc["mdp"]["absorbing"][s_]) for s_ in sl]
             detail = {"case": case, "step": j, "error": out["error"]}
             sig = "C16:raises:" + etype
-            if etype in ("UnboundLocalError", "LinAlgError") and near_one_continuing(pc["mdp"], None, state_list=sl):
+            if etype in ("UnboundLocalError", "LinAlgError") and tiny_class_case(pc["mdp"], sl) is not None:
+                sig = "C16:undiscounted:tiny-probabilities:raises:" + etype
+                detail["class_rule"] = TINY_RULE
+            elif etype in ("UnboundLocalError", "LinAlgError") and near_one_continuing(pc["mdp"], None, state_list=sl):
                 # same root cause as the gamma-near-one value errors (numerically singular Gram system): either the
                 # solve raises LinAlgError, or the noisy non-zero gain keeps the gain improvement step switching
                 # for all max_iterations and bias_q is never bound (UnboundLocalError)
@@ -818,6 +935,7 @@ def run(ctx):
             stats["undisc_nonzero_gain"] += int(any(x != 0 for x in gq))
             stats["undisc_gain_below_minus_708"] += int(any(x < -709 for x in gq))
             stats["undisc_M_positive"] += int(bool(d["M"]))
+            stats["undisc_dual_vector_not_from_reported_bias"] += int(d.get("dual_from") != "reported bias")
             stats["undisc_with_terminal"] += int(any(d["absorbing"]))
             f = gen_mdp.features(pc["mdp"])
             stats["undisc_pos_and_neg_rewards"] += int(f["neg_rewards"] and f["pos_rewards"])
@@ -868,7 +986,9 @@ def run(ctx):
                 "(2-4 states, gamma in {1-2^-10,1-2^-14,1-2^-17,1-10^-6}); discounted EPISODIC near-one (stochastic corridors of 8-16/24 cells, gamma in "
                 "{1-2^-20, 0.999995, 1-2^-17, 1-2^-14}, dyadic costs up to 1000, judged at 1e-7 relative); undiscounted: proper non-positive, terminal states with "
                 "rewards of either sign, recurrent (unichain/multichain by chance), block-structured multichain, gain-class-choice 'farms' (exact / near bias ties across "
-                "classes of different gain), 'large costs' (per-step costs -1200..-80, no terminal state, pure entry states lacking an action id), and 'sweeps' "
+                "classes of different gain), 'large costs' (per-step costs -1200..-80, no terminal state, pure entry states lacking an action id), 'tiny probabilities' "
+                "(2-3 states, transition probabilities 2^-k and 1-2^-k for k in {8,10,20,27,30,40,52}: almost absorbing self-loops, almost unreachable exits, "
+                "almost disconnected classes, multi-state classes with a tiny leak; 80%% undiscounted), and 'sweeps' "
                 "(ONE planner object plans on A, a perturbation B with probabilities turned to/from 0, (C,) and A again; every step judged).  Residual tolerance = "
                 "improvement band, capped so that the proved value bound is <= 1e-3 of the value scale.  MultichainPolicyIteration(max_iterations in {200,500,1000}); "
                 "only converged=True runs are judged; distinct = structural hash of the MDP; non-trivial = at least one non-terminal state" % nmax,
